@@ -186,6 +186,9 @@ func ErrClass(err error) string {
 		return "canceled"
 	}
 	msg := err.Error()
+	if strings.Contains(msg, "atomic and parallel options are mutually exclusive") {
+		return "conflict"
+	}
 	if i := strings.Index(msg, "fake:"); i >= 0 {
 		rest := msg[i+5:]
 		j := 0
